@@ -50,6 +50,9 @@ func (a *probeApp) Start() error {
 		return err
 	}
 	if a.Fail == "start" {
+		if r := cur.Load(); r != nil {
+			r.rejecting(a.Gen)
+		}
 		return fmt.Errorf("verif: injected start failure")
 	}
 	return nil
